@@ -238,8 +238,11 @@ func genC16(rng *rand.Rand, n int, thorough bool, emit func(string)) {
 		if rng.Intn(100) < 55 {
 			ops := genSessOps(rng, 6)
 			calls := writerCalls("SESS", []string{shape, "-", ops})
-			for _, f := range faultSchedules(rng, calls, thorough) {
+			for k, f := range faultSchedules(rng, calls, thorough) {
 				out(fmt.Sprintf("SESS %s %s %s", shape, f, ops))
+				if k%3 == 1 {
+					out(fmt.Sprintf("GSESS %s %s %s", shape, f, ops))
+				}
 			}
 		} else {
 			hdr, ons, prov := genHeader(rng), genOnSession(rng), genProvider(rng)
